@@ -21,6 +21,7 @@ type target struct {
 	ct        *Contract
 	key       string
 	why       string
+	exempt    bool       // C03: only ever called below a declared error swallow
 	selfIface types.Type // implementer mode: the interface whose method contract is being checked
 	extra     func(vc *VC, te *TEnv, final *State, results []Val, retReach string)
 }
@@ -328,6 +329,7 @@ func runCheck(repo, verifDir, prop, tier string) int {
 	done := map[string]bool{}
 	verify := func(t target) {
 		e.selfIface = t.selfIface
+		e.exemptNext = t.exempt
 		vc := e.verifyFunc(t.fn, t.ct, cr.slice, cr.safety, t.extra)
 		e.selfIface = nil
 		vc.discharge(SolveOpts{Dir: qdir, Timeouts: timeouts, Parallel: 16, Seed: seed}, cr.tally)
@@ -375,7 +377,7 @@ func runCheck(repo, verifDir, prop, tier string) int {
 					continue
 				}
 				done[id] = true
-				more = append(more, target{fn: fn, ct: ct, key: k, why: "assumed at a call site of this slice", selfIface: sel})
+				more = append(more, target{fn: fn, ct: ct, key: k, why: "assumed at a call site of this slice", selfIface: sel, exempt: !ct.usedStrict})
 			}
 		}
 		if len(more) == 0 {
